@@ -101,6 +101,28 @@ impl KeyPool {
             }
             descr.push("hashed-counters".into());
         }
+        // boundary keys: for a few existing keys k and depths d, the smallest key of the sibling
+        // sub-trie (prefix ++ 1 ++ 000..0), the largest key of the own sub-trie (prefix ++ 0 ++
+        // 111..1) and their neighbours: exact range bounds of trie positions.
+        if rng.chance(1, 2) && !set.is_empty() {
+            let existing: Vec<Key> = set.iter().copied().collect();
+            let n = 1 + rng.usize_below(6);
+            for _ in 0..n {
+                let k = *rng.pick(&existing);
+                let d = hostile_prefix_len(rng).min(254);
+                let mut lo = k;
+                let mut hi = k;
+                set_bit(&mut lo, d, true);
+                set_bit(&mut hi, d, false);
+                for i in d + 1..256 {
+                    set_bit(&mut lo, i, false);
+                    set_bit(&mut hi, i, true);
+                }
+                set.insert(lo);
+                set.insert(hi);
+            }
+            descr.push(format!("boundary-keys(n={})", n * 2));
+        }
         let mut keys: Vec<Key> = set.into_iter().collect();
         rng.shuffle(&mut keys);
         KeyPool { keys, descr }
